@@ -12,6 +12,7 @@ HARNESS = {
     'wakeup': dict(srcs=['harness/sched/wakeup.c', 'harness/sched/sched.c', 'harness/common/mockloop.c'] + COMMON),
     'pumplab': dict(srcs=['harness/pipelab/pumplab.c', 'harness/common/mockloop.c'] + COMMON),
     'pipelab': dict(srcs=['harness/pipelab/pipelab.c', 'harness/pipelab/lab.c', 'harness/common/mockloop.c', 'harness/common/cumem.c'] + COMMON),
+    'xthread': dict(srcs=['harness/sched/xthread.c', 'harness/sched/sched.c', 'harness/common/mockloop.c'] + COMMON),
     'picsound': dict(srcs=['harness/corelab/picsound.c', 'harness/common/cumem.c'] + COMMON),
 }
 
@@ -515,5 +516,48 @@ PROPS['C12'] = dict(
              quick=100000, thorough=3000000, leak_check=True,
              require=['c12.lodging_checks', 'c12.answered', 'c12.replumb',
                       'c12.unregister']),
+    ],
+)
+
+PROPS['C06'] = dict(
+    engine='sched',
+    key_prefixes=['c06:', 'tsan:', 'asan:', 'abort:', 'crash:', 'timeout'],
+    technique='runtime monitoring: per-thread event logs checked after join '
+              '(exactly-once / in-order / flow-definition-first / end-of-'
+              'source-last / thread-affinity automaton) under (A) a seeded '
+              'serialising scheduler with mock loops on the real event '
+              'descriptors, deadlock decided on logical state, and (B) '
+              'free-running threads with real libev loops under '
+              'ThreadSanitizer',
+    level_text='1-3 producer threads each with a queue sink into one queue '
+               'source (lengths 1, 2, 3, 7, 255) read by a consumer thread: '
+               'bursts larger than the queue, flow definition changed '
+               'mid-stream, flush during a stall, release with buffers held; '
+               'every buffer must arrive once, in order, under the '
+               'definition it was sent with, end-of-source last, consumer-'
+               'side events in the consumer thread only; TSan reports '
+               'outside the by-design racy ring accesses are violations.',
+    level_note=SAN_NOTE + 'Interleavings sampled, sequentially consistent in '
+               'mode A; TSan reports whose top frames are uring_* (the '
+               'deliberately unsynchronised ring element accesses, judged by '
+               'C07) are listed, not judged. Worker / transfer pipes: see '
+               'DESIGN.md.',
+    rule='case = one program (producers, burst sizes, queue length, flow-def '
+         'change, flush) + one schedule; non-trivial = more context switches '
+         'than threads (A) / every run (B); distinct = hash of (program, '
+         'decision string)',
+    assumptions=['producers sharing one queue use the same flow definition'],
+    jobs=[
+        dict(name='queue-serial', bin='xthread', variant='plain', mode='serial',
+             quick=40000, thorough=2000000,
+             require=['c06.cases_with_stall', 'c06.cases_with_flush',
+                      'c06.cases_with_flow_def_change', 'c06.deliveries_checked']),
+        dict(name='queue-serial-asan', bin='xthread', variant='asan', mode='serial',
+             quick=4000, thorough=200000),
+        dict(name='queue-free-tsan', bin='xthread', variant='tsan', mode='free',
+             args=['--max-producers', '1'], quick=400, thorough=12000, timeout=3000,
+             require=['c06.deliveries_checked']),
+        dict(name='queue-free-tsan-multi', bin='xthread', variant='tsan', mode='free',
+             quick=48, thorough=1600, timeout=3000),
     ],
 )
